@@ -48,6 +48,11 @@ structure St where
   /-- reach(shadow) and number of objects at the last pause (satb mode) -/
   pauseReach : Array Bool := #[]
   pauseObjs : Nat := 0
+  /-- C07: the last pause was a full-heap collection (the VO bits are exactly the survivors + later allocations);
+  after a nursery collection dead mature objects may keep their bit -/
+  voExact : Bool := true
+  /-- ids of the last snapshot taken since the last pause (their `lastRef` is current) -/
+  inSnap : Array Bool := #[]
 
 def sortNat (l : List Nat) : List Nat := l.mergeSort (fun a b => decide (a ≤ b))
 
@@ -79,7 +84,34 @@ def onPause (st : St) (h : Heap) (nursery : Bool) : St :=
   let heap' := o.cleared.foldl (fun hp r => (applyOp hp (.write r 0 none)).getD hp) st.g.heap
   let surv : Nat → Bool := fun x => o.live.getD x false
   { st with g := { st.g with heap := heap' }, w := o.w, alive := o.live, bornBefore := h.objs.size, emergency := false,
-            gen := promote st.gen surv }
+            gen := promote st.gen surv, voExact := !nursery, inSnap := #[] }
+
+/-- C07: the object with this id is a valid object now: allocated (not a tombstone) and never collected, allocated
+since the last pause, or a survivor of the last pause -/
+def expAlive (st : St) (i : Id) : Bool :=
+  st.g.lastRef.getD i 0 != 0 && (neverDies st.g i || decide (st.bornBefore ≤ i) || st.alive.getD i false)
+
+/-- the monitor knows where the object is now -/
+def refKnown (st : St) (i : Id) : Bool :=
+  decide (st.bornBefore ≤ i) || st.inSnap.getD i false || fixedObj st.g i
+
+/-- valid objects whose current address the monitor does not know (kept alive without being reachable, in a
+moving space): while there are some, "no valid object at this address" cannot be asserted -/
+def hasFloaters (st : St) : Bool :=
+  (List.range st.g.heap.objs.size).any fun i => expAlive st i && !refKnown st i
+
+/-- the valid object whose reference is `a` -/
+def validAt (st : St) (a : Nat) : Option Id :=
+  if a == 0 then none else
+  (List.range st.g.lastRef.size).find? fun i => st.g.lastRef.getD i 0 == a && expAlive st i && refKnown st i
+
+def parseEnum (s : String) : Option (List (Nat × Nat)) :=
+  if s.isEmpty then some [] else
+  (s.splitOn ",").mapM fun e => match e.splitOn ":" with
+    | [i, r] => match i.toNat?, parseHex? r with
+      | some i, some r => some (i, r)
+      | _, _ => none
+    | _ => none
 
 def boolStr? (s : String) : Option Bool := if s == "true" then some true else if s == "false" then some false else none
 
@@ -88,7 +120,7 @@ def ext (st : St) (pre : Driver.GCMon.St) (op res : List String) : St × String 
   let paused := st.g.gcs != pre.gcs
   -- 1. a pause happened while this op ran: the collection saw the heap as it was before the op
   let st := if paused && !st.satb then
-      let nursery := st.generational && (match op with | ["gc", _, "0"] => true | _ => false)
+      let nursery := st.generational && (match op with | ["gc", _, "1"] => false | _ => true)
       onPause st pre.heap nursery
     else if paused && op.head? != some "snap" then
       -- C12: remember what was reachable when the pause happened; a pause outside a marking cycle owes nothing
@@ -210,18 +242,38 @@ def ext (st : St) (pre : Driver.GCMon.St) (op res : List String) : St × String 
         | none => (st, "ok")
       | none => (st, "ok")
     else
-    -- C06: an object the model keeps alive (ready for finalization / retained / resurrected) at a known, fixed
-    -- address is still a valid object
+    -- C07 / C08 (`isMmtkObject_iff`): the answer is the id of the valid object whose reference is `a`, else `none`
     match num? a with
     | some a =>
-      match st.g.lastRef.findIdx? (· == a) with
+      if !st.g.vobit || res.head? == some "unsupported" then (st, "ok") else
+      match validAt st a with
       | some i =>
-        if a != 0 && st.g.vobit && st.g.collects && fixedObj st.g i && !st.satb
-            && (st.alive.getD i false || decide (st.bornBefore ≤ i)) && res != [toString i] then
-          (st, viol "gc:ready-not-alive" s!"id={i} at {a} is kept alive by the model (ready for finalization, retained or reachable) but is_mmtk_object answers {" ".intercalate res}")
+        if res != [toString i] then
+          (st, viol "gc:ismo-missing" s!"id={i} at {a} is a valid object (reachable, allocated since the pause, kept alive by a finalizer / soft reference, or never collected) but is_mmtk_object answers {" ".intercalate res}")
         else (st, "ok")
-      | none => (st, "ok")
+      | none =>
+        if st.voExact && !hasFloaters st && res != ["none"] && !(res.head?.getD "").startsWith "panic" then
+          (st, viol "gc:ismo-stale" s!"no valid object has the reference {a} after the full-heap collection, but is_mmtk_object answers {" ".intercalate res}")
+        else (st, "ok")
     | none => (st, "ok")
+  | ["enum"] =>
+    match res with
+    | "enum" :: rest =>
+      match parseEnum (rest.headD "") with
+      | none => (st, viol "prog:parse" "enum")
+      | some es =>
+        let ids := es.map (·.1)
+        if !strictIncr ids then (st, viol "gc:enum-dup" s!"id={(firstDup ids).getD 0} is enumerated twice")
+        else
+          let n := st.g.heap.objs.size
+          let seen := markIds n ids
+          match (List.range n).find? (fun i => expAlive st i && !seen.getD i false) with
+          | some i => (st, viol "gc:enum-missing" s!"id={i} is a valid object but enumerate_objects does not visit it")
+          | none =>
+            match (if st.voExact then ids.find? (fun i => !expAlive st i) else none) with
+            | some i => (st, viol "gc:enum-extra" s!"id={i} was reclaimed by the full-heap collection (or never existed) but enumerate_objects still visits it")
+            | none => (st, "ok")
+    | _ => (st, "ok")
   | _ => (st, "ok")
 
 /-- C06 on a snapshot: field 0 of every registered reference object -/
@@ -245,6 +297,9 @@ def pairW (st : St) (op res : List String) : St × String :=
   if o != "ok" then (st, o)
   else if e != "ok" then (st, e)
   else if op.head? == some "snap" then
+    let st := match parseSnap res with
+      | some sn => { st with inSnap := markIds st.g.heap.objs.size (sn.objs.map (·.id)) }
+      | none => st
     match snapReferents st res with
     | some v => (st, v)
     | none => (st, "ok")
